@@ -1,0 +1,42 @@
+// SPDX-FileCopyrightText: 2022-present Intel Corporation
+//
+// SPDX-License-Identifier: Apache-2.0
+
+//go:build verif
+
+// Contracts for the deductive verifier in /verif (govc). Comment-only: this file contains no code
+// and is excluded from every build that does not set the "verif" tag.
+
+package transaction
+
+//@ import configapi "github.com/onosproject/onos-api/go/onos/config/v3"
+
+// the per-target transaction log is looked up (and created on first use) by this helper: assumed to
+// return a usable primitive or an error, and to touch neither the record nor the ghosts
+//@ func (*transactionStore).getTransactions(s, ctx, target) (m, err)
+//@   trusted
+//@   modifies nothing
+//@   ensures err == nil ==> m != nil
+
+// C15, write half: the store implementation over the atomix primitive. Every update is conditional on
+// the version the caller read (guards of the assumed contracts in /verif/contracts/lib/atomix.spec),
+// versions and revisions only grow, a record that was never read cannot be written, and the write
+// goes to the record's own key.
+//@ func (*transactionStore).Update(s, ctx, transaction) (err)
+//@   props C15
+//@   requires s != nil && true && transaction != nil
+//@   ensures {C15} version-and-revision-grow: err == nil ==> transaction.Version > old(transaction.Version) && transaction.Revision == old(transaction.Revision) + 1
+//@   ensures {C15} unread-record-refused: old(transaction.Version) == 0 || old(transaction.Revision) == 0 ==> err != nil && condWrites == old(condWrites)
+//@   ensures {C15} one-conditional-write-to-own-key: condWrites <= old(condWrites) + 1 && inserts == old(inserts) && (condWrites > old(condWrites) ==> lastWriteKey == transaction.Key) && (err == nil ==> condWrites == old(condWrites) + 1)
+//@ func (*transactionStore).UpdateStatus(s, ctx, transaction) (err)
+//@   props C15
+//@   requires s != nil && true && transaction != nil
+//@   ensures {C15} version-grows-revision-kept: err == nil ==> transaction.Version > old(transaction.Version) && transaction.Revision == old(transaction.Revision)
+//@   ensures {C15} unread-record-refused: old(transaction.Version) == 0 || old(transaction.Revision) == 0 ==> err != nil && condWrites == old(condWrites)
+//@   ensures {C15} one-conditional-write-to-own-key: condWrites <= old(condWrites) + 1 && inserts == old(inserts) && (condWrites > old(condWrites) ==> lastWriteKey == transaction.Key) && (err == nil ==> condWrites == old(condWrites) + 1)
+//@ func (*transactionStore).Create(s, ctx, transaction) (err)
+//@   props C15
+//@   requires s != nil && true && transaction != nil
+//@   ensures {C15} only-new-records-are-created: old(transaction.Version) != 0 || old(transaction.Revision) != 0 ==> err != nil && inserts == old(inserts)
+//@   ensures {C15} created-record-is-versioned: err == nil ==> transaction.Revision == 1 && transaction.Version > 0 && inserts == old(inserts) + 1 && lastWriteKey == transaction.Key
+//@   ensures {C15} create-never-overwrites: condWrites == old(condWrites) && inserts <= old(inserts) + 1
